@@ -113,6 +113,21 @@ def chain_contract(rows, stack=False):
     cexpm = [float(np.mean([rows[j][1] for j in range(n) if seg_of[j] == k])) for k in range(len(exp))]
     if cmean != cexpm:
         return f"apply_chain_wise(res_id, np.mean) = {cmean}, per-chain recomputation gives {cexpm}"
+    c2 = a.coord if not stack else a.coord[0]
+    for fn, name in ((np.mean, "np.mean"), (np.max, "np.max")):
+        got = np.asarray(struc.apply_chain_wise(a, c2, fn, axis=0))
+        want = np.array([fn(c2[[j for j in range(n) if seg_of[j] == k]], axis=0) for k in range(len(exp))])
+        if got.shape != want.shape or not np.allclose(got, want):
+            return f"apply_chain_wise(coord, {name}, axis=0) has shape {got.shape}, per-chain recomputation gives shape {want.shape} / other values"
+    spread = struc.spread_chain_wise(a, np.arange(len(exp))).tolist()
+    if spread != seg_of:
+        return f"spread_chain_wise {spread} != {seg_of}"
+    masks = struc.get_chain_masks(a, np.arange(n))
+    for i in range(n):
+        if masks[i].tolist() != [seg_of[j] == seg_of[i] for j in range(n)]:
+            return f"get_chain_masks row {i}"
+    if struc.get_chain_starts_for(a, np.arange(n)).tolist() != [exp[k] for k in seg_of]:
+        return "get_chain_starts_for"
     parts = list(struc.chain_iter(a))
     if [p.array_length() for p in parts] != [seg_of.count(k) for k in range(len(exp))]:
         return "chain_iter"
